@@ -96,18 +96,20 @@ type TPkt struct {
 	Parent   *TPkt  // set for packets emitted by the forward middleware
 	Kids     []*TPkt
 
-	Received   bool
-	RecvResult string // success | error | async
-	AckSuccess *bool  // known once an acknowledgement was written on the destination
-	AckV1      []byte
-	AckV2      *channeltypesv2.Acknowledgement
-	Terminal   string // "" | ack-ok | ack-err | timeout
-	Refunded   int
-	Credited   int
-	Retried    bool // a timed-out forward hop that was re-sent in the same transaction
-	GaveUp     bool // forward hop whose failure was turned into an error ack for its parent
-	WantFinal  string // root of a forward route: the final receiver named in the memo
-	WantHops   int    // root of a forward route: number of forward hops named in the memo
+	Received          bool
+	RecvResult        string // success | error | async
+	AckSuccess        *bool  // known once an acknowledgement was written on the destination
+	AckV1             []byte
+	AckV2             *channeltypesv2.Acknowledgement
+	Terminal          string // "" | ack-ok | ack-err | timeout
+	Refunded          int
+	Credited          int
+	Retried           bool // a timed-out forward hop that was re-sent in the same transaction
+	GaveUp            bool // forward hop whose failure was turned into an error ack for its parent
+	TimeoutRefused    int
+	TimeoutRefusedLog string
+	WantFinal         string // root of a forward route: the final receiver named in the memo
+	WantHops          int    // root of a forward route: number of forward hops named in the memo
 }
 
 func (p *TPkt) src() int      { return p.Lane.Ends[p.SrcSide].Chain }
@@ -181,6 +183,14 @@ type Topology struct {
 	Chains int
 	Links  [][2]int
 	V2On   map[int]bool // link index -> also create an IBC v2 client pair
+	// Desync creates i dummy clients on chain i first, so that the two ends of a link carry different client ids
+	// (ibctesting otherwise hands out the same ids on both chains)
+	Desync bool
+}
+
+// TriangleV2 has an IBC v2 client pair on every link and different client ids on the two ends of each link.
+func TriangleV2() Topology {
+	return Topology{Chains: 3, Links: [][2]int{{0, 1}, {1, 2}, {2, 0}}, V2On: map[int]bool{0: true, 1: true, 2: true}, Desync: true}
 }
 
 func Triangle() Topology {
@@ -194,6 +204,15 @@ func Line2() Topology {
 func NewSim(c *kit.Check, r *kit.Rng, topo Topology) *Sim {
 	w := kit.NewWorld(c.T, topo.Chains)
 	s := &Sim{C: c, W: w, Ch: w.Chains, R: r, Focus: c.Prop, broken: map[string]bool{}, grants: map[string]bool{}}
+	if topo.Desync {
+		for i := range s.Ch {
+			for j := 0; j < i; j++ {
+				if err := ibctesting.NewPath(s.Ch[i].TestChain, s.Ch[(i+1)%len(s.Ch)].TestChain).EndpointA.CreateClient(); err != nil {
+					panic(kit.Abort{Msg: err.Error()})
+				}
+			}
+		}
+	}
 	for i, lk := range topo.Links {
 		a, b := s.Ch[lk[0]].TestChain, s.Ch[lk[1]].TestChain
 		p := ibctesting.NewTransferPath(a, b)
